@@ -325,22 +325,53 @@ def template_text(seq, opstr):
     return ''.join(out)
 
 
-def parse_c_template(txt):
+def promote(ty):
+    """C integer promotion of an operand type descriptor"""
+    if ty is not None and ty[0] == 'i' and ty[1] < 32:
+        return ('i', 32, True)
+    return ty
+
+
+def arith_conv(a, b):
+    """usual arithmetic conversions for two integer type descriptors (LP64)"""
+    a, b = promote(a), promote(b)
+    if a is None or b is None or a[0] != 'i' or b[0] != 'i':
+        return None
+    if a[2] == b[2]:
+        return a if a[1] >= b[1] else b
+    u, g = (a, b) if not a[2] else (b, a)
+    if u[1] >= g[1]:
+        return u
+    return g
+
+
+def parse_c_template(txt, natural=None):
     """signature of a rendered one-line C template:
-       $0 = (T) $1 OP (T) $2;   |  if ((T) $1 OP (T) $2) goto $0  |  $0 = CASTS $1;  |  $0 = - (T) $1"""
+       $0 = (T) $1 OP (T) $2;   |  if ((T) $1 OP (T) $2) goto $0  |  $0 = CASTS $1;  |  $0 = - (T) $1
+       natural: {operand index: type descriptor} of operands printed without a cast (when the operand kinds are known)"""
     t = ' '.join(txt.split())
-    m = re.fullmatch(r'\$0 = (?:\((?P<t1>[a-z0-9_ ]+)\) )?\$1 (?P<op>[-+*/%&|^<>=!]+) (?:\((?P<t2>[a-z0-9_ ]+)\) )?\$2;', t)
-    if m:
-        t1, t2 = m.group('t1'), m.group('t2')
+
+    def binty(t1, t2):
+        if natural is not None:
+            e1 = ctype_desc(t1) if t1 else natural.get(1)
+            e2 = ctype_desc(t2) if t2 else natural.get(2)
+            r = arith_conv(e1, e2)
+            return r, r is not None
         if t1 != t2:
-            return ESig('other:mixed-casts', note=t)
-        return ESig('bin', m.group('op'), ctype_desc(t1) if t1 else None, operands=(1, 2), note=t)
-    m = re.fullmatch(r'if \((?:\((?P<t1>[a-z0-9_ ]+)\) )?\$1 (?P<op>[<>=!]+) (?:\((?P<t2>[a-z0-9_ ]+)\) )?\$2\) goto \$0;', t)
+            return None, False
+        return (ctype_desc(t1) if t1 else None), True
+    m = re.fullmatch(r'\$0 = (?:\((?P<t1>[a-z0-9_ ]+)\) ?)?\$1 (?P<op>[-+*/%&|^<>=!]+) (?:\((?P<t2>[a-z0-9_ ]+)\) ?)?\$2;', t)
     if m:
-        t1, t2 = m.group('t1'), m.group('t2')
-        if t1 != t2:
+        ty, ok = binty(m.group('t1'), m.group('t2'))
+        if not ok:
             return ESig('other:mixed-casts', note=t)
-        return ESig('bcmp', m.group('op'), ctype_desc(t1) if t1 else None, operands=(1, 2), note=t)
+        return ESig('bin', m.group('op'), ty, operands=(1, 2), note=t)
+    m = re.fullmatch(r'if \((?:\((?P<t1>[a-z0-9_ ]+)\) ?)?\$1 (?P<op>[<>=!]+) (?:\((?P<t2>[a-z0-9_ ]+)\) ?)?\$2\) goto \$0;', t)
+    if m:
+        ty, ok = binty(m.group('t1'), m.group('t2'))
+        if not ok:
+            return ESig('other:mixed-casts', note=t)
+        return ESig('bcmp', m.group('op'), ty, operands=(1, 2), note=t)
     m = re.fullmatch(r'\$0 = (?P<neg>- ?)?(?P<casts>(?:\([a-z0-9_ ]+\) ?)*)\$1;', t)
     if m:
         casts = [ctype_desc(c) for c in re.findall(r'\(([a-z0-9_ ]+)\)', m.group('casts'))]
@@ -359,6 +390,33 @@ class Renderer:
 
     def __init__(self, tu, preds):
         self.tu, self.preds = tu, preds
+        self.scenario = None   # {operand index: {'mode': v, 'memtype': v or None}} when rendering under operand kinds
+        self.unresolved = 0
+
+    def operand_index(self, a, binds):
+        """operand number denoted by an expression: ops[k], insn->ops[k], or a parameter bound to one"""
+        a = F.strip(a)
+        if a['k'] == 'ArraySubscriptExpr':
+            return F.const_value(a['c'][1])
+        if a['k'] == 'DeclRefExpr' and isinstance(binds.get(('op', a['n'])), int):
+            return binds[('op', a['n'])]
+        return None
+
+    def scenario_env(self, env, binds):
+        e2 = dict(env)
+        if self.scenario is None:
+            return e2
+        for key, k in binds.items():
+            if isinstance(key, tuple) and key[0] == 'op' and k in self.scenario:
+                e2['%s.mode' % key[1]] = self.scenario[k]['mode']
+                if self.scenario[k].get('memtype') is not None:
+                    e2['%s.u.mem.type' % key[1]] = self.scenario[k]['memtype']
+        for arr in [key[1] for key in binds if isinstance(key, tuple) and key[0] == 'arr'] + ['ops', 'insn->ops']:
+            for k, sc in self.scenario.items():
+                e2['%s[%d].mode' % (arr, k)] = sc['mode']
+                if sc.get('memtype') is not None:
+                    e2['%s[%d].u.mem.type' % (arr, k)] = sc['memtype']
+        return e2
 
     def arg_text(self, a, env, binds):
         a = F.strip(a)
@@ -391,11 +449,13 @@ class Renderer:
             ks = F.kids(stmt)
             return self.render(f, ks[0], env, binds, depth) if ks else ''
         if k == 'IfStmt':
-            e2 = dict(env)
+            e2 = self.scenario_env(env, binds)
             for n_, v_ in binds.items():
-                e2[n_] = 0 if v_ is None else 1
+                if isinstance(n_, str):
+                    e2[n_] = 0 if v_ is None else 1
             c = self.preds.eval(stmt['c'][0], e2, frozenset())
             if c is None:
+                self.unresolved += 1
                 return '<if?>'
             return self.render(f, stmt['c'][1] if c else stmt['c'][2], env, binds, depth)
         if k in ('ForStmt', 'WhileStmt', 'DoStmt'):
@@ -428,8 +488,7 @@ class Renderer:
                 out += fmt['s'][pos:]
                 return out
             if c in ('out_op', 'out_jmp'):
-                a = F.strip(args[-1])
-                kk = F.const_value(a['c'][1]) if a['k'] == 'ArraySubscriptExpr' else None
+                kk = self.operand_index(args[-1], binds)
                 if c == 'out_op':
                     return '$%s' % kk
                 return 'goto $%s;\n' % kk
@@ -446,6 +505,14 @@ class Renderer:
                         nb[prm['n']] = None
                     elif a['k'] == 'DeclRefExpr' and a['n'] in binds:
                         nb[prm['n']] = binds[a['n']]
+                    pt = self.tu.types[prm['t']]
+                    if 'MIR_op_t' in pt.s:
+                        if pt.kind == 'ptr':
+                            nb[('arr', prm['n'])] = True
+                        else:
+                            oi = self.operand_index(a, binds)
+                            if oi is not None:
+                                nb[('op', prm['n'])] = oi
                 return self.render(g, g.body, env, nb, depth + 1)
             if is_error_like(stmt):
                 return '<error>'
@@ -465,7 +532,7 @@ OVF_RE = re.compile(r'__overflow = __builtin_(add|sub|mul)_overflow\(\((?P<t1>[a
 BTF_RE = re.compile(r'if \((?P<neg>!)?\((?P<t>[a-z0-9_ ]+)\) \$1\) goto \$0;')
 
 
-def parse_rendered(txt):
+def parse_rendered(txt, natural=None):
     t = ' '.join(txt.split())
     m = OVF_RE.fullmatch(t)
     if m:
@@ -475,7 +542,7 @@ def parse_rendered(txt):
     m = BTF_RE.fullmatch(t)
     if m:
         return ESig('btf', '!' if m.group('neg') else '', ctype_desc(m.group('t')), operands=(1,), note=t)
-    return parse_c_template(t)
+    return parse_c_template(t, natural)
 
 
 def mir2c_sigs(tu):
@@ -489,6 +556,14 @@ def mir2c_sigs(tu):
     preds = EF.Predicates(tu)
     rd = Renderer(tu, preds)
     codes = dict(tu.enum('MIR_insn_code_t'))
+    modes = dict(tu.enum('MIR_op_mode_t'))
+    tys = dict(tu.enum('MIR_type_t'))
+    kinds = [('a register', {'mode': modes['MIR_OP_REG']}, ('i', 64, True)),
+             ('a signed immediate', {'mode': modes['MIR_OP_INT']}, ('i', 64, True)),
+             ('an unsigned immediate', {'mode': modes['MIR_OP_UINT']}, ('i', 64, False))]
+    for tn, w, sg_ in (('I8', 8, True), ('U8', 8, False), ('I16', 16, True), ('U16', 16, False), ('I32', 32, True), ('U32', 32, False),
+                       ('I64', 64, True), ('U64', 64, False)):
+        kinds.append(('%s memory' % tn.lower(), {'mode': modes['MIR_OP_MEM'], 'memtype': tys['MIR_T_' + tn]}, ('i', w, sg_)))
     out = {}
     handled = set()
     for r in regs:
@@ -496,11 +571,32 @@ def mir2c_sigs(tu):
         handled.update(names)
         for nm in names:
             env = {'insn->code': codes.get(nm), 'code': codes.get(nm)}
-            txt = ''
-            for st in r['stmts']:
-                txt += rd.render(f, st, env, {})
-                if st['k'] == 'BreakStmt':
-                    break
+            def render_all():
+                t_ = ''
+                for st in r['stmts']:
+                    t_ += rd.render(f, st, env, {})
+                    if st['k'] == 'BreakStmt':
+                        break
+                return t_
+            rd.scenario = None
+            txt = render_all()
+            if '<if?>' in txt:
+                # what is printed depends on the operands' kinds: render under every kind of the two source operands
+                variants = []
+                for d1, s1, n1 in kinds:
+                    for d2, s2, n2 in kinds:
+                        rd.scenario = {1: s1, 2: s2}
+                        tv = render_all()
+                        sg = parse_rendered(tv, {1: n1, 2: n2})
+                        sg.note = ' '.join(tv.split())[:120]
+                        sg.node = r['stmts'][0] if r['stmts'] else None
+                        variants.append(('operand 1 = %s, operand 2 = %s' % (d1, d2), sg))
+                rd.scenario = None
+                sig = ESig('multi', note=' '.join(txt.split())[:120])
+                sig.variants = variants
+                sig.node = r['stmts'][0] if r['stmts'] else None
+                out[nm] = sig
+                continue
             sig = parse_rendered(txt)
             sig.node = r['stmts'][0] if r['stmts'] else None
             sig.note = ' '.join(txt.split())[:120]
@@ -650,6 +746,25 @@ def rf8(run, engines=('interp', 'folder', 'mir2c')):
                 # folder handles a subset; mir2c coverage is RF7h
                 continue
             sig = sigs[c]
+            if sig.kind == 'multi':
+                bad = unk = None
+                for desc, sv in sig.variants:
+                    w_ = check_against_spec(sp, sv, fpo)
+                    if w_ is not None and sv.kind.startswith('other'):
+                        unk = unk or (desc, sv, w_)
+                    elif w_ is not None:
+                        bad = bad or (desc, sv, w_)
+                if bad is None and unk is not None:
+                    run.ob(rule, (eng, c), False)
+                    run.analysis_broken(rule, '%s: %s of %s with %s: %s' % (eng, f.name, c, unk[0], unk[2]))
+                    continue
+                run.ob(rule, (eng, c), bad is None, {'opcode': c, 'engine': eng, 'operand-kind variants rendered': len(sig.variants),
+                                                    'specification': repr(sp), 'verdict': 'all conform' if bad is None else '%s: %s' % (bad[0], bad[2])})
+                if bad is not None:
+                    run.violation(rule, f, '%s handler of %s' % (eng, c),
+                                  '%s prints [%s] for %s when %s, i.e. computes [%s]: %s' % (eng, bad[1].note, c, bad[0], bad[1].show(), bad[2]),
+                                  line=sig.node['l'] if sig.node else f.line, slots={'extracted': bad[1].show(), 'spec': repr(sp)})
+                continue
             why = check_against_spec(sp, sig, fpo, branch_as_value=(eng == 'folder'))
             if why is not None and (sig is None or sig.kind.startswith('other')):
                 run.ob(rule, (eng, c), False)
